@@ -81,3 +81,49 @@ func Harness_C12_ReturnPayload() {
 		nd.Assert("return:element-reference-exactly-as-written", t.Reference == wantRef)
 	}
 }
+
+// the parameters of a REST endpoint: every query, path, header and body parameter the
+// endpoint declares is mapped, each with its own location, whatever mix is present
+func Harness_C12_EndpointParameters() {
+	nq := nd.IntRange("query-parameters", 0, 2)
+	nu := nd.IntRange("path-parameters", 0, 2)
+	header := nd.Bool("header-parameter")
+	body := nd.Bool("body-parameter")
+	prim := func(p sysl.Type_Primitive) *sysl.Type { return &sysl.Type{Type: &sysl.Type_Primitive_{Primitive: p}} }
+	ep := &sysl.Endpoint{Name: "GET /x", RestParams: &sysl.Endpoint_RestParams{Method: sysl.Endpoint_RestParams_GET, Path: "/x"}}
+	want := map[string]string{}
+	for i := 0; i < nq; i++ {
+		n := "q" + string(rune('0'+i))
+		ep.RestParams.QueryParam = append(ep.RestParams.QueryParam, &sysl.Endpoint_RestParams_QueryParam{Name: n, Type: prim(sysl.Type_INT)})
+		want[n] = "query"
+	}
+	for i := 0; i < nu; i++ {
+		n := "u" + string(rune('0'+i))
+		ep.RestParams.UrlParam = append(ep.RestParams.UrlParam, &sysl.Endpoint_RestParams_QueryParam{Name: n, Type: prim(sysl.Type_STRING)})
+		want[n] = "path"
+	}
+	if header {
+		ep.Param = append(ep.Param, &sysl.Param{Name: "h", Type: prim(sysl.Type_STRING)})
+		want["h"] = "header"
+	}
+	if body {
+		t := prim(sysl.Type_STRING)
+		t.Attrs = map[string]*sysl.Attribute{"patterns": {Attribute: &sysl.Attribute_A{A: &sysl.Attribute_Array{
+			Elt: []*sysl.Attribute{{Attribute: &sysl.Attribute_S{S: "body"}}}}}}}
+		ep.Param = append(ep.Param, &sysl.Param{Name: "b", Type: t})
+		want["b"] = "body"
+	}
+	am := &AppMapper{Types: map[string]*sysl.Type{}}
+	var got map[string]*Parameter
+	crashed, msg := nd.Recovered(func() { got = am.mapAllParams(ep) })
+	nd.Note(msg)
+	nd.Assert("parameters:no-crash", !crashed)
+	if crashed {
+		return
+	}
+	nd.Assert("parameters:exactly-the-declared-ones", len(got) == len(want))
+	for n, in := range want {
+		p := got[n]
+		nd.Assert("parameters:each-with-its-location", p != nil && p.Name == n && p.In == in && p.Type != nil)
+	}
+}
